@@ -10,6 +10,26 @@ include!(concat!(env!("OUT_DIR"), "/abi_table.rs"));
 pub const DEF: PropDef = PropDef { id: "C19", strata, run, setup, canaries: &["panic"] };
 
 const REF_PATH: &str = "/verif/ref/abi_reference.txt";
+const REF_ALL_PATH: &str = "/verif/ref/abi_reference_all.txt";
+const FAMILIES: [&str; 10] = ["ELFOSABI_", "ET_", "EM_", "SHT_", "PT_", "STT_", "STB_", "STV_", "ELFCOMPRESS_", "DT_"];
+
+/// every value any reference header assigns to a name of the function's family, exported by the crate or not
+fn family_values(which: u64) -> Vec<i128> {
+    let mut v = Vec::new();
+    if let Ok(txt) = std::fs::read_to_string(REF_ALL_PATH) {
+        for line in txt.lines() {
+            let mut it = line.split_whitespace();
+            if let (Some(n), Some(val)) = (it.next(), it.next()) {
+                if n.starts_with(FAMILIES[which as usize]) {
+                    if let Ok(x) = val.parse::<u64>() {
+                        v.push(x as i128);
+                    }
+                }
+            }
+        }
+    }
+    v
+}
 
 fn setup(ctx: &mut Ctx) {
     ctx.floor("constants:compared", 1000);
@@ -19,12 +39,13 @@ fn setup(ctx: &mut Ctx) {
     ctx.floor("to_str:none", 10_000);
     ctx.floor("to_string:checked", 10_000);
     ctx.floor("nonint-constants:compared", 4);
+    ctx.floor("to_str:probe-values-from-reference-families", 200);
 }
 
 const TO_STR_FNS: u64 = 10;
 
 fn strata(t: Tier) -> Vec<Stratum> {
-    vec![ex("constants", 1), ex("struct-layouts", 1), ex("to_str-domains", TO_STR_FNS), st("to_str-random", scale(t, 160, 1600, 2))]
+    vec![ex("constants", 1), ex("struct-layouts", 1), ex("to_str-domains", scale(t, TO_STR_FNS, TO_STR_FNS, 0)), st("to_str-domains-sampled", scale(t, 0, 0, 32)), st("to_str-random", scale(t, 160, 1600, 0))]
 }
 
 fn load_ref() -> Result<HashMap<String, (u64, String)>, String> {
@@ -158,11 +179,11 @@ fn check_structs(ctx: &mut Ctx) {
     check_struct!(ctx, Elf64_Chdr, "Elf64_Chdr", St::Chdr, true, 0, [ch_type, ch_reserved, ch_size, ch_addralign]);
 }
 
-struct Names {
+pub struct Names {
     by_name: HashMap<&'static str, i128>,
 }
 
-fn names() -> Names {
+pub fn names() -> Names {
     let mut by_name = HashMap::new();
     for (n, _, v) in ABI_CONSTS {
         by_name.insert(*n, *v);
@@ -195,7 +216,7 @@ fn domain_bits(which: u64) -> u32 {
     }
 }
 
-fn check_value(ctx: &mut Ctx, n: &Names, which: u64, v: i128) -> bool {
+pub fn check_value(ctx: &mut Ctx, n: &Names, which: u64, v: i128) -> bool {
     ctx.eval();
     let (s, string, fname) = to_str_fn(which, v);
     match s {
@@ -286,12 +307,39 @@ fn run(ctx: &mut Ctx, si: usize, case: u64) {
                 }
                 vals.push(-1);
                 vals.push(i64::MIN as i128);
+                let fam = family_values(which);
+                ctx.count_n("to_str:probe-values-from-reference-families", fam.len() as u64);
+                for x in fam {
+                    for d in [-1i128, 0, 1] {
+                        vals.push(x + d);
+                    }
+                    // and the same low word in other 4 GiB windows (for the 64-bit domain)
+                    vals.push(x + (1i128 << 32));
+                    vals.push(x - (1i128 << 32));
+                }
                 for v in vals {
                     let v = if bits == 32 { v & mask } else { (v as i64) as i128 };
                     if !check_value(ctx, &n, which, v) {
                         return;
                     }
                     totality(ctx, v as u64);
+                }
+            }
+        }
+        3 => {
+            // reduced tier (Miri): every constant value and its neighbours for one function, no 65536 sweeps
+            let n = names();
+            let which = ctx.rng.below(10);
+            for (_, _, cv) in ABI_CONSTS.iter() {
+                if !ctx.rng.chance(1, 6) {
+                    continue;
+                }
+                for d in [-1i128, 0, 1] {
+                    let bits = domain_bits(which);
+                    let v = match bits { 8 => (cv + d) & 0xff, 16 => (cv + d) & 0xffff, 32 => (cv + d) & 0xffff_ffff, _ => ((cv + d) as i64) as i128 };
+                    if !check_value(ctx, &n, which, v) {
+                        return;
+                    }
                 }
             }
         }
